@@ -318,13 +318,17 @@ func (mr *modelReference) writeProtobuf(generation int) error {
 	fmt.Printf("Sent gen %d of %s\n", generation, mr.ModelName)
 
 	if generation == len(mr.Batches)-1 {
-		fmt.Printf("Waiting for output writer for %s to close\n", mr.ModelName)
-		mr.OutputWriter.Close()
-		mr.OutputProcess.Wait()
-		fmt.Printf("Output writer for %s closed\n", mr.ModelName)
+		mr.closeOutputWriter()
 	}
 
 	return nil
+}
+
+func (mr *modelReference) closeOutputWriter() {
+	fmt.Printf("Waiting for output writer for %s to close\n", mr.ModelName)
+	mr.OutputWriter.Close()
+	mr.OutputProcess.Wait()
+	fmt.Printf("Output writer for %s closed\n", mr.ModelName)
 }
 
 func (mr *modelReference) generationLocation(generation int) int32 {
@@ -343,6 +347,11 @@ func (mr *modelReference) WriteData(generation int) error {
 	}
 
 	if gen.Count == 0 {
+		if mr.OutputProcess != nil && generation == len(mr.Batches)-1 {
+			// nothing to send for the last generation: the writer process must still be
+			// told to finish and be waited for
+			mr.closeOutputWriter()
+		}
 		return nil
 	}
 
